@@ -16,6 +16,8 @@ var rules = []*Rule{
 	{ID: "R3", Title: "LOCKSET: every shared mutable field has a common guard", Props: []string{"C08"}, Run: ruleR3},
 	{ID: "R6", Title: "SENTINEL-IDENTITY: compared sentinels arrive unwrapped and alive", Props: []string{"C03", "C04", "C09", "C10", "C12"}, Run: ruleR6},
 	{ID: "R7", Title: "TAXONOMY and GUARDS", Props: []string{"C04", "C03", "C07", "C09", "C10", "C11", "C12", "C14", "C19"}, Run: ruleR7},
+	{ID: "R8", Title: "KEY-EQUALITY: a hash hit is only a candidate", Props: []string{"C09"}, Run: ruleR8},
+	{ID: "R10", Title: "DECODER-VALIDATION: nothing is returned before it is checked", Props: []string{"C14", "C07"}, Run: ruleR10},
 	{ID: "R4", Title: "LOCK-ORDER: acyclic acquisition graph, no re-acquisition", Props: []string{"C08"}, Run: ruleR4},
 }
 
